@@ -875,3 +875,74 @@ def oracle_hist_bins(mon, s, pre_range, vals, channels, nbins, scale, kwargs, ou
                     T=float(T), M=float(M), W=float(W), worst=float(np.max(np.abs(e - want) / (np.abs(want) + scl))), **d)
             mon.chk(e[0] <= min(lo, 0) + 1e-9 * scl and e[-1] >= hi * (1 - 1e-12) if 'T' not in kwargs and 'M' not in kwargs else True,
                     'hist_bins:range-not-covered', first=float(e[0]), last=float(e[-1]), **d)
+
+
+# ------------------------------------------------------------------------------
+# C04 (shape C): alignment invariant on every sample any indexing produces
+# ------------------------------------------------------------------------------
+
+def _attach_alignment(self):
+    cls = self.F.io.FCSData
+    self.rebind(cls, '__getitem__', lambda orig: _wrap_getitem(self, orig))
+    self.keys_seen = {}
+
+
+Monitors.attach_alignment = _attach_alignment
+
+
+def key_shape(key):
+    def one(k):
+        if isinstance(k, (bool, np.bool_)):
+            return 'bool'
+        if isinstance(k, (int, np.integer)):
+            return 'int' if k >= 0 else '-int'
+        if isinstance(k, str):
+            return 'name'
+        if isinstance(k, slice):
+            return 'slice'
+        if k is Ellipsis:
+            return '...'
+        if k is None:
+            return 'None'
+        if isinstance(k, np.ndarray):
+            return 'nd-' + k.dtype.kind + str(k.ndim)
+        if isinstance(k, (list, tuple)):
+            inner = sorted(set(one(x) for x in k))
+            return ('list' if isinstance(k, list) else 'tuple') + '[' + ','.join(inner) + ']'
+        return type(k).__name__
+    if isinstance(key, tuple):
+        return '(' + ', '.join(one(k) for k in key) + ')'
+    return one(key)
+
+
+def aligned(r):
+    """invariant for a 2-D sample: one record per column in each of the seven views."""
+    n = r.shape[1]
+    try:
+        lens = [len(r.channels), len(r.range()), len(r.resolution()), len(r.amplification_type()),
+                len(r.amplifier_gain()), len(r.detector_voltage()), len(r.channel_labels())]
+    except Exception as e:   # noqa
+        return False, 'accessor raised ' + core.exc_str(e)
+    return all(l == n for l in lens), lens
+
+
+def _wrap_getitem(mon, orig):
+    def __getitem__(self, key):
+        out = orig(self, key)
+        if mon.depth == 0:
+            mon.depth += 1
+            try:
+                ks = key_shape(key)
+                mon.keys_seen[ks] = mon.keys_seen.get(ks, 0) + 1
+                if is_sample(out) and out.ndim == 2 and is_sample(self) and self.ndim == 2 \
+                        and hasattr(out, '_channels'):
+                    ok, lens = aligned(out)
+                    mon.ctx.counters['chk_alignment_invariant'] += 1
+                    mon.chk(ok, 'alignment-invariant', key=ks, shape=list(out.shape), metadata_counts=lens)
+            except Exception as e:   # noqa
+                mon.ctx.counters['oracle_errors'] += 1
+                mon.ctx.note('oracle-error getitem: ' + core.exc_str(e))
+            finally:
+                mon.depth -= 1
+        return out
+    return __getitem__
